@@ -53,6 +53,29 @@ ReadM(f, modulus) ==
                    ELSE [ok |-> TRUE, v |-> DecVal(ln)]
 Read(f) == ReadM(f, Modulus)
 
+\* ---- the same reading on decimal strings of any size (TLC integers are 32-bit; a provider may be 64 bits wide): a count is
+\* its sequence of ASCII digits without leading zeros
+RECURSIVE StripZ(_)
+StripZ(s) == IF Len(s) > 1 /\ s[1] = 48 THEN StripZ(Tail(s)) ELSE s
+RECURSIVE DecInc(_)
+DecInc(s) == IF s = <<>> THEN <<49>>
+             ELSE IF s[Len(s)] < 57 THEN [s EXCEPT ![Len(s)] = @ + 1]
+             ELSE DecInc(Front(s)) \o <<48>>
+RECURSIVE DblC(_, _)
+DblC(s, c) == IF s = <<>> THEN (IF c = 0 THEN <<>> ELSE <<48 + c>>)
+              ELSE LET d == (s[Len(s)] - 48) * 2 + c IN DblC(Front(s), d \div 10) \o <<48 + (d % 10)>>
+RECURSIVE Pow2D(_)
+Pow2D(w) == IF w = 0 THEN <<49>> ELSE DblC(Pow2D(w - 1), 0)
+DecLt(a, b) == \/ Len(a) < Len(b)
+               \/ Len(a) = Len(b) /\ \E i \in DOMAIN a : a[i] < b[i] /\ \A j \in 1..(i - 1) : a[j] = b[j]
+ReadD(f, w) ==
+           IF f = Missing THEN [ok |-> FALSE, err |-> "notfound"]
+           ELSE LET ln == RStrip(FirstLine(f.c))
+                IN IF ln = <<>> \/ \E i \in DOMAIN ln : ~IsDigit(ln[i]) THEN [ok |-> FALSE, err |-> "value"]
+                   ELSE IF ~DecLt(StripZ(ln), Pow2D(w)) THEN [ok |-> FALSE, err |-> "value"]
+                   ELSE [ok |-> TRUE, d |-> StripZ(ln)]
+NextD(d, w) == LET n == DecInc(d) IN IF n = Pow2D(w) THEN <<48>> ELSE n
+
 \* write at offset 0 without truncation
 Overwrite(old, new) == IF Len(old) > Len(new) THEN new \o SubSeq(old, Len(new) + 1, Len(old)) ELSE new
 
